@@ -190,10 +190,23 @@ class HistoryMonitor:
         # registries that are shared by design: factory prototypes hold functions only; loggers; the settings singleton
         shared = [o for o in shared if not isinstance(o, (fl.library.Settings,)) and type(o).__module__ != "logging"]
         ctx.hit("graph:objects walked", len(a))
+        # arrays are separate objects and separate memory (a view of the original's data is as shared as the object itself)
+        mine = [o for o in a.values() if isinstance(o, np.ndarray) and o.size]
+        theirs = [o for o in b.values() if isinstance(o, np.ndarray) and o.size]
+        for x in mine:
+            for y in theirs:
+                if x is not y and np.may_share_memory(x, y) and np.shares_memory(x, y):
+                    shared.append(x)
+                    break
+        if any(isinstance(o, np.ndarray) and o.size > 8192 for o in mine):
+            ctx.hit("event:copy of an engine holding arrays of more than 8192 values")
         if shared:
             ctx.violation("copy(): a mutable object is reachable from both the original and the copy", {"engine": engine.name, "shared": [f"{type(o).__name__}: {str(o)[:80]}" for o in shared[:5]]}, 0, len(shared))
-        for msg in closure_violations(dup, fl):
-            ctx.violation("copy(): a reference of the copy points outside the copy", {"engine": engine.name, "detail": msg}, "inside", msg)
+        # (an original whose rules hold a term that was since replaced in its variable is copied as it is: the copy's rules hold
+        # the copy of that detached term - sharing with the original is what the walk above looks for)
+        if not closure_violations(engine, fl):
+            for msg in closure_violations(dup, fl):
+                ctx.violation("copy(): a reference of the copy points outside the copy", {"engine": engine.name, "detail": msg}, "inside", msg)
         if str(dup) != describe(engine) or repr(dup) != repr(engine):
             ctx.violation("copy(): the copy's FLL/Python description differs from the original", {"engine": engine.name}, describe(engine), str(dup))
         for ov, cv in zip(engine.output_variables, dup.output_variables):
@@ -204,7 +217,7 @@ class HistoryMonitor:
 # ---- workload -------------------------------------------------------------------------------------------------------------
 
 
-def edits_for(fl, rnd, spec):
+def edits_for(fl, rnd, spec, structural=False):
     """an edit = (description, function(engine)) changing a parameter / weight / operator / flag"""
     choices = []
     iv = rnd.randrange(len(spec["inputs"]))
@@ -217,7 +230,37 @@ def edits_for(fl, rnd, spec):
     oi = rnd.randrange(len(spec["outputs"]))
     choices.append(("output range", lambda e, oi=oi: setattr(e.output_variables[oi], "maximum", e.output_variables[oi].maximum + 1.0)))
     choices.append(("rule disabled", lambda e, bi=bi, ri=ri: setattr(e.rule_blocks[bi].rules[ri], "enabled", False)))
+    # a term replaced by a new object of the same name (the loaded rules keep the object they were loaded with)
+    v = spec["inputs"][iv]
+    lo_, hi_ = v["minimum"], v["maximum"]
+    name = v["terms"][ti]["name"]
+    choices.append(("term object replaced", lambda e, iv=iv, ti=ti: e.input_variables[iv].terms.__setitem__(ti, fl.Triangle(name, lo_, 0.5 * (lo_ + hi_), hi_))))
+    # the terms of a weighted output replaced by terms of the other family (same names), then restart(): as good as new
+    weighted = [k for k, o in enumerate(spec["outputs"]) if o["kind"] in ("ts", "tsukamoto") and o["defuzzifier"] and o["defuzzifier"].get("type") == "Automatic"]
+    if weighted:
+        ok = rnd.choice(weighted)
+        o = spec["outputs"][ok]
+
+        def swap(e, ok=ok, o=o):
+            ov = e.output_variables[ok]
+            for k, t in enumerate(list(ov.terms)):
+                ov.terms[k] = fl.Ramp(t.name, o["minimum"], o["maximum"]) if o["kind"] == "ts" else fl.Constant(t.name, 0.5 * (o["minimum"] + o["maximum"]))
+            e.restart()
+
+        choices.append(("output terms replaced by the other family and restart", swap))
+        choices.append(("output terms replaced by the other family and restart", swap))
+    if structural:
+        choices = [c for c in choices if c[0] in ("term object replaced", "output terms replaced by the other family and restart")]
     return rnd.choice(choices)
+
+
+def remember_restart(mon, engine):
+    """restart() re-binds the rules to the terms the variables hold now: where terms were replaced before, the reconstruction of
+    the engine has to restart at the same point of its history of edits"""
+    if id(engine) in mon.fresh:
+        factory, edits = mon.fresh[id(engine)]
+        if edits:
+            mon.fresh[id(engine)] = (factory, edits + [lambda e: e.restart()])
 
 
 def run(ctx):
@@ -288,6 +331,7 @@ def run(ctx):
                     elif op == "process":
                         engine.process()
                     elif op == "restart":
+                        remember_restart(mon, engine)
                         engine.restart()
                     elif op == "unload-restart":
                         # rules that are unloaded when restart() is called (left over from a rejected load, or unloaded by hand)
@@ -297,8 +341,13 @@ def run(ctx):
                                 if rnd.random() < 0.4:
                                     rule.unload()
                                     ctx.hit("event:rule unloaded before restart")
+                        remember_restart(mon, engine)
                         engine.restart()
                     elif op == "copy":
+                        if not scalar_only and rnd.random() < 0.06:
+                            big = np.array([E.rows(rnd, spec, 8)[j % 8] for j in range(rnd.choice([8193, 10000]))], dtype=float)
+                            engine.input_values = big
+                            engine.process()
                         dup = engine.copy()
                         keep.append(dup)
                         if rnd.random() < 0.6:
@@ -309,9 +358,9 @@ def run(ctx):
                         target = rnd.choice(keep)
                         others = [e for e in keep if e is not target]
                         before = [(str(e), repr(e)) for e in others]
-                        edit(target)
                         factory_t, edits_t = mon.fresh[id(target)]
-                        mon.fresh[id(target)] = (factory_t, edits_t + [edit])
+                        mon.fresh[id(target)] = (factory_t, edits_t + [edit])  # (registered first: an edit may itself call restart())
+                        edit(target)
                         ctx.hit("compare:edit isolation")
                         ctx.evaluated()
                         for e, (s0, r0) in zip(others, before):
@@ -334,6 +383,47 @@ def run(ctx):
             if i < 2:
                 ctx.sample("sequence", {"fll": str(keep[0])[:1500], "operations": ops})
             mon.fresh = {}
+        # directed: the two structural edits followed at once by what they are meant to meet (a copy; further processing)
+        for i, rnd in ctx.cases("structural edits", ctx.scale(80, 4000)):
+            spec = E.gen_engine(rnd, activations=("General",), d=3, kinds=("ts", "tsukamoto", "integral"), resolutions=[5, 10], free_weights=True, flags=False, locks=False, allow_output_antecedent=False)
+            factory = lambda spec=spec: E.build(fl, spec)  # noqa: E731
+            try:
+                engine = factory()
+            except Exception:
+                continue
+            mon.fresh = {id(engine): (factory, [])}
+            keep = [engine]
+
+            def feed(e):
+                for k, v in enumerate(e.input_variables):
+                    v.value = float(rows[0][k]) if rnd.random() < 0.5 else np.array([r[k] for r in rows])
+                try:
+                    e.process()
+                except Exception:
+                    pass
+
+            rows = E.finite_rows(rnd, spec, 3)
+            feed(engine)
+            for _ in range(2):
+                what, edit = edits_for(fl, rnd, spec, structural=True)
+                factory_t, edits_t = mon.fresh[id(engine)]
+                mon.fresh[id(engine)] = (factory_t, edits_t + [edit])
+                try:
+                    edit(engine)
+                except Exception as ex:
+                    ctx.hit(f"event:operation raised {type(ex).__name__}")
+                ctx.hit("edit:" + what)
+                rows = E.finite_rows(rnd, spec, 3)
+                feed(engine)
+                try:
+                    dup = engine.copy()
+                    keep.append(dup)
+                    feed(dup)
+                    feed(engine)
+                except Exception as ex:
+                    ctx.hit(f"event:operation raised {type(ex).__name__}")
+            mon.fresh = {}
         probe.report(ctx)
         reach.report(ctx)
-    ctx.require("hook:Engine.process", "hook:Engine.restart", "hook:Engine.copy", "compare:process vs fresh engine", "compare:rule state vs fresh engine", "event:rule unloaded before restart", "compare:restart", "compare:copy", "compare:edit isolation", "graph:objects walked", "event:input arrays refilled in place", "event:toggle and restore", "input type:int array", "input type:bool array", "input type:python int", "input type:list")
+    ctx.require("edit:term object replaced", "edit:output terms replaced by the other family and restart")
+    ctx.require("hook:Engine.process", "hook:Engine.restart", "hook:Engine.copy", "compare:process vs fresh engine", "compare:rule state vs fresh engine", "event:rule unloaded before restart", "compare:restart", "compare:copy", "event:copy of an engine holding arrays of more than 8192 values", "compare:edit isolation", "graph:objects walked", "event:input arrays refilled in place", "event:toggle and restore", "input type:int array", "input type:bool array", "input type:python int", "input type:list")
